@@ -139,6 +139,75 @@ func genRowOp(g *gen.G, t *dyn.Table, cur, orig map[string]val.Val, u, maxn int,
 		}
 		return RowOp{Kind: "insert", Row: row}
 	}
+	if orig != nil && g.Chance(0.18) {
+		// one key that a map column held from the start is worked on again and again: given another value, removed as a
+		// pair or by key, inserted again - so that the difference accumulated so far and the next one concern the same
+		// key, and may even look alike, while the original pair is a third value
+		var mcols []val.Col
+		for _, c := range t.Cols {
+			if c.K == 'm' && !c.Immutable && len(orig[c.Name].Map) > 0 {
+				mcols = append(mcols, c)
+			}
+		}
+		if len(mcols) > 0 {
+			c := mcols[g.Intn(len(mcols))]
+			k := orig[c.Name].Map[g.Intn(len(orig[c.Name].Map))][0]
+			var curv val.Atom
+			has := false
+			for _, p := range cur[c.Name].Map {
+				if p[0].Key() == k.Key() {
+					curv, has = p[1], true
+				}
+			}
+			other := g.Atom(c.VT, u, nil)
+			switch y := g.Intn(5); {
+			case y == 0 || !has:
+				m := val.Val{K: 'm'}
+				for _, p := range cur[c.Name].Map {
+					if p[0].Key() != k.Key() {
+						m.Map = append(m.Map, p)
+					}
+				}
+				m.Map = append(m.Map, [2]val.Atom{k, other})
+				return RowOp{Kind: "update", Row: map[string]val.Val{c.Name: m.Canon()}}
+			case y == 1:
+				return RowOp{Kind: "mutate", Muts: []Mut{{Col: c.Name, Mutator: "delete", Arg: val.VM([2]val.Atom{k, curv})}}}
+			case y == 2:
+				return RowOp{Kind: "mutate", Muts: []Mut{{Col: c.Name, Mutator: "delete", Arg: val.Val{K: 's', Set: []val.Atom{k}}}}}
+			case y == 3:
+				return RowOp{Kind: "mutate", Muts: []Mut{{Col: c.Name, Mutator: "insert", Arg: val.VM([2]val.Atom{k, other})}}}
+			default:
+				// the pair as it was at the start
+				for _, p := range orig[c.Name].Map {
+					if p[0].Key() == k.Key() {
+						other = p[1]
+					}
+				}
+				return RowOp{Kind: "mutate", Muts: []Mut{{Col: c.Name, Mutator: "delete", Arg: val.VM([2]val.Atom{k, curv})}, {Col: c.Name, Mutator: "insert", Arg: val.VM([2]val.Atom{k, other})}}}
+			}
+		}
+	}
+	if rowBigInts && orig != nil && g.Chance(0.15) {
+		// an integer that started at the edge of float64 precision moves among its neighbours (2^53 and 2^53+1 are one
+		// float64): whether it is back at its first value is a matter of integers
+		var icols []val.Col
+		for _, c := range t.Cols {
+			if c.K == 'a' && c.KT == 'i' && len(c.Enum) == 0 && !c.Immutable && orig[c.Name].A.I >= 1<<53 {
+				icols = append(icols, c)
+			}
+		}
+		if len(icols) > 0 {
+			c := icols[g.Intn(len(icols))]
+			switch g.Intn(3) {
+			case 0:
+				return RowOp{Kind: "update", Row: map[string]val.Val{c.Name: val.VA(val.Int(int64(1)<<53 + int64(g.Intn(3))))}}
+			case 1:
+				return RowOp{Kind: "mutate", Muts: []Mut{{Col: c.Name, Mutator: "+=", Arg: val.VA(val.Int(1))}}}
+			default:
+				return RowOp{Kind: "mutate", Muts: []Mut{{Col: c.Name, Mutator: "-=", Arg: val.VA(val.Int(1))}}}
+			}
+		}
+	}
 	x := g.Intn(100)
 	switch {
 	case allowDelete && x < 12:
